@@ -661,6 +661,11 @@ def run_task(t):
     return fails, counts, desc, sample
 
 
+def _worker_init():
+    # the parent's SIGTERM handler must not be inherited: Pool.terminate() relies on SIGTERM killing a worker outright
+    signal.signal(signal.SIGTERM, signal.SIG_DFL)
+
+
 def main():
     t0 = time.time()
     SCRATCH[0] = tempfile.mkdtemp(prefix='pytough-', dir='/var/tmp')
@@ -668,7 +673,7 @@ def main():
     rnd = random.Random(seed)
     tasks = gen_tasks(rnd)
     failures, counts, distinct, samples = [], dict((c, 0) for c in CONTRACTS), set(), []
-    pool = mp.Pool(min(16, os.cpu_count() or 1))
+    pool = mp.Pool(min(16, os.cpu_count() or 1), initializer=_worker_init)
     try:
         for fails, cnt, desc, sample in pool.imap(run_task, tasks, chunksize=1):
             failures.extend(fails)
